@@ -158,7 +158,7 @@ pub fn spec(c: &mut Cur, depth: u32, cfg: GenCfg) -> Spec {
     }
     8 | 9 => {
       let n = c.below(cfg.max_children + 1);
-      let how = c.u8() % 4;
+      let how = c.u8() % 5;
       Spec::Concat { how, children: (0..n).map(|_| spec(c, depth - 1, cfg)).collect() }
     }
     10 | 11 => {
